@@ -2,7 +2,7 @@
 """Maintainer tool for seeded changes (/verif/seeded/<id>/): ingest a sub-agent's delivery after re-verifying it,
 and evaluate the registered checks against every seeded change in a scratch worktree (never in /repo).
 
-  tools_seeded.py ingest C05 A        # verify /tmp/mut/C05/deliver/A.diff + A_demo.py, store as seeded/C05-A/
+  tools_seeded.py ingest C05 A [root [store-letter]]   # verify <root=/tmp/mut>/C05/deliver/A.diff + A_demo.py, store as seeded/C05-<store-letter=A>/
   tools_seeded.py eval [ids...]       # run ./check <property> (quick) on each seeded change; writes seeded/RESULTS.json
 """
 import json
@@ -20,8 +20,9 @@ def sh(cmd, cwd=None, env=None, timeout=1800):
     return subprocess.run(cmd, shell=True, cwd=cwd, env=env, capture_output=True, text=True, timeout=timeout)
 
 
-def ingest(pid, letter):
-    wt = '/tmp/mut/%s' % pid
+def ingest(pid, letter, root='/tmp/mut', store=None):
+    wt = '%s/%s' % (root, pid)
+    store = store or letter
     d = os.path.join(wt, 'deliver')
     diff, demo = os.path.join(d, letter + '.diff'), os.path.join(d, letter + '_demo.py')
     env = dict(os.environ, PYTHONPATH=wt)
@@ -43,7 +44,7 @@ def ingest(pid, letter):
     print(pid, letter, 'OK' if ok else 'REJECTED', log['tests_with_change'], log['demo_clean_exit'], log['demo_changed_exit'])
     if not ok:
         return False
-    out = os.path.join(VERIF, 'seeded', '%s-%s' % (pid, letter))
+    out = os.path.join(VERIF, 'seeded', '%s-%s' % (pid, store))
     os.makedirs(out, exist_ok=True)
     shutil.copy(diff, os.path.join(out, 'patch.diff'))
     shutil.copy(demo, os.path.join(out, 'demo.py'))
@@ -52,7 +53,7 @@ def ingest(pid, letter):
         notes = open(os.path.join(d, 'notes.md')).read()
     with open(os.path.join(out, 'notes.md'), 'w') as f:
         f.write(notes)
-    meta = {'id': '%s-%s' % (pid, letter), 'property': pid, 'source': 'independent sub-agent given only the property text and a scratch worktree',
+    meta = {'id': '%s-%s' % (pid, store), 'property': pid, 'source': 'independent sub-agent given only the property text and a scratch worktree',
             'needs_to_manifest': 'see notes.md (section %s)' % letter,
             'verified_by_me': {'cmd_tests': 'cd <worktree> && PYTHONPATH=<worktree> /venv/bin/python -m pytest -q -p no:cacheprovider -x',
                                'tests_with_change': log['tests_with_change'],
@@ -111,6 +112,6 @@ def evaluate(ids):
 
 if __name__ == '__main__':
     if sys.argv[1] == 'ingest':
-        ingest(sys.argv[2], sys.argv[3])
+        ingest(*sys.argv[2:6])
     else:
         evaluate(sys.argv[2:])
